@@ -8,7 +8,9 @@ Proof (lean/IstioModel/C13):
                      (all operations, goroutines, schedules), lost_update_witness_unfixed (F4) and
                      the partial theorem for the pinned code;
   ClaTheorems.lean   membership_exact, grouping by locality, weights_consistent for
-                     BuildClusterLoadAssignment; EndToEnd.lean composes the three.
+                     BuildClusterLoadAssignment; NetTheorems.lean the network filter (routeSpec, gateway
+                     weights); LbTheorems.lean locality-weighted distribution (localityLbSetting.distribute);
+                     EndToEnd.lean composes them.
 Tie (T-diff, every run): stream `index` - random sequential op sequences on the REAL
   model.EndpointIndex; stream `sched` - real goroutines parked/released at the verif gate points in
   scripted orders; stream `cla` - index operations + membership queries served by the REAL
@@ -17,7 +19,8 @@ On break: harness `oracle` states the property's clauses directly on the real in
 """
 import os
 
-THEOREMS = ["IstioModel.C13.Theorems", "IstioModel.C13.ConcTheorems", "IstioModel.C13.ClaTheorems", "IstioModel.C13.NetTheorems", "IstioModel.C13.EndToEnd"]
+THEOREMS = ["IstioModel.C13.Theorems", "IstioModel.C13.ConcTheorems", "IstioModel.C13.ClaTheorems", "IstioModel.C13.NetTheorems",
+            "IstioModel.C13.LbTheorems", "IstioModel.C13.EndToEnd"]
 STREAMS = ("index", "sched", "cla")
 
 
@@ -86,21 +89,27 @@ def oracle(ctx, stream, case_lines, rep):
 def run(ctx):
     ctx.rule = ("index: random sequential histories (1-30 ops) of UpdateServiceEndpoints / DeleteServiceShard / DeleteShard / "
                 "PruneShard over 2-3 services x 2-3 registries; reports are fresh lists or small mutations of the registry's "
-                "previous report (identical, health flip, unhealthy addition, removal, service-account change, reorder, duplicate key, "
-                "change of any one of the 15 non-key attributes Equals compares). "
+                "previous report (identical, health flip, unhealthy addition, removal, service-account change, reorder, duplicate key - "
+                "with a changed attribute or as an exact copy -, change of any one of the 15 non-key attributes Equals compares); one "
+                "update in five goes through the cache-only variant (logPushType = false, what EDSCacheUpdate calls). "
                 "sched: 0-2 sequential ops, then 1-3 real goroutines running UpdateServiceEndpoints, parked at the gates "
                 "lookup:after-miss / update:after-lookup and released in a scripted order, interleaved with deletes / prunes / "
                 "updates executed by the scheduler and with DeleteShard / PruneShard goroutines parked at every unlink while "
                 "further updates are begun (they must block); every case ends with the linearizability verdict over all "
                 "interval-respecting orders. cla: two worlds (single-network; multi-network with 7 gateways incl. two clusters of one "
-                "network, an ambient-only, an IPv6 and an IPv4-mapped one), 5 services (plain, persistent-session, cluster-local, "
-                "node-local, DestinationRule minHealthPercent), 2-3 per case; 2-7 steps: index ops through DiscoveryServer.EDSUpdate / "
-                "SvcUpdate / RemoveShard / PruneShard, DestinationRule updates (subsets re-labelled, rule deleted, rule created), a "
-                "namespace-wide PeerAuthentication DISABLE created / deleted, CDS-time service-endpoint queries; every resulting "
-                "PushRequest goes through DiscoveryServer.Push (cache drop, new PushContext) and is merged per connection; pushes "
-                "(sotw or delta, with delta.go's removal rule) over 4-6 watched clusters for p1 plus one of five proxies that differ "
-                "from it in exactly one cache-key component (cluster, node, network view, IPv6-only, dual stack) - always back to "
-                "back - or for one or two of nine proxies. "
+                "network, an ambient-only, an IPv6 and an IPv4-mapped one), 8 services (plain, persistent-session, cluster-local, "
+                "node-local, DestinationRule minHealthPercent, DestinationRule localityLbSetting.distribute with two rule sets, "
+                "DNS resolution, not in the registry), 2-3 per case; unhealthy endpoints not sent / sent by default / forced "
+                "process-wide; 2-7 steps: index ops through DiscoveryServer.EDSUpdate or - one update in four - EDSCacheUpdate "
+                "(alone, or with SvcUpdate(update)) followed by the push its caller issues, SvcUpdate(delete) / RemoveShard / "
+                "PruneShard (keep set empty or not), DestinationRule updates (subsets re-labelled and distribute rules changed, rule "
+                "deleted, rule created), a PeerAuthentication DISABLE namespace-wide or in the root namespace created / deleted, a "
+                "VirtualService-only push (a kind EDS skips), CDS-time service-endpoint queries; every resulting PushRequest goes "
+                "through DiscoveryServer.Push (cache drop, new PushContext) and is merged per connection; pushes through the real "
+                "pushConnection / pushConnectionDelta (sotw or delta) over 4-6 watched clusters for p1 plus one of eight proxies that "
+                "differ from it in exactly one cache-key component (cluster, node, network view, IPv6-only, dual stack, locality - two "
+                "of them -, node type router) - always back to back - or for one or two of thirteen proxies, three of them with a "
+                "locality. Endpoints include unix domain sockets, empty and non-IP addresses, weights near and above the uint32 limit. "
                 "distinct = hash of (ops, implementation outputs); non-trivial = at least one op")
     ctx.assumptions = [
         "sync.Mutex / RWMutex give atomic critical sections (lock-region granularity of the concurrent model)",
@@ -112,34 +121,47 @@ def run(ctx):
         "an endpoint's SendUnhealthyEndpoints flag agrees with the builder's supportsUnhealthyEndpoints whenever the latter is true "
         "(hypothesis hc of member_pushable: the registries derive the flag from Service.SupportsUnhealthyEndpoints, the builder from "
         "the same service plus the DestinationRule's minHealthPercent); the cla generator sets the flag from the process default",
-        "membership model: sidecar proxy, ambient multi-network off, no waypoint / self-discovery / inference-pool cluster, no HBONE "
-        "tunnel labels, no locality-LB distribute/failover (priorities stay 0), no DestinationRule TLS settings; a PeerAuthentication is "
-        "absent or disables mTLS namespace-wide (mTLS enabled iff TLSMode = istio and not disabled); gateway addresses are IPs; "
+        "membership model: sidecar proxy (a router only in the single-network world, where it is served like a sidecar), ambient "
+        "multi-network off, no waypoint / self-discovery / inference-pool cluster, no HBONE tunnel labels, no locality-LB failover / "
+        "failoverPriority / zone-aware / TrafficDistribution (priorities stay 0), no DestinationRule TLS settings; a PeerAuthentication is "
+        "absent or disables mTLS namespace- or mesh-wide (mTLS enabled iff TLSMode = istio and not disabled); gateway addresses are IPs; "
         "netutil.IsValidIPAddress abstracted to a character-class test that agrees on the generated addresses",
+        "distribute: the `to` patterns of one rule do not overlap (Go visits that map in random order; applyDistribute_order_independent "
+        "proves the order irrelevant exactly then); in a multi-network mesh a locality whose members the network filter all left out "
+        "still counts with weight 1 in its target's total (modelled as the code does it, not judged by the oracle: observation O7)",
         "the PushRequests that follow SvcUpdate(EventDelete) / RemoveShard / PruneShard are fabricated by the harness in the shape their "
         "callers use (bootstrap serviceHandler: ConfigsUpdated {ServiceEntry host/ns}; multicluster cluster removal: Forced); the ones "
         "for endpoint updates and for DestinationRule / PeerAuthentication changes are real (EDSUpdate) resp. of the shape of the "
         "config handler (ConfigsUpdated {kind name/ns})",
         "every IstioEndpoint on the cluster's port has at least one address (possibly empty string): all registries guarantee it; "
         "BuildClusterLoadAssignment indexes Addresses[0] before filterIstioEndpoint's len(Addresses)==0 guard (corpus cla.nil-address)",
-        "pushType_sound's last clause assumes distinct endpoint keys inside one shard (noPush_dupkey_witness shows the corner)",
+        "distinct-keys-per-report: a registry's report carries no two endpoints with the same key (namespace, workload, first address, "
+        "port name) - the kube registry drops them (endpointSliceCache.get), ServiceEntry workloads are named by their index. "
+        "pushType_sound's last clause, noPush_served_unchanged and noPush_served_exact assume it for the stored shard, the latter also "
+        "for the incoming report; noPush_dupkey_witness and noPush_dup_report_witness show both corners; the index stream generates "
+        "them, the nopush clauses of the oracle are judged only on reports and shards with distinct keys (counted: cov.index.nopush-*)",
+        "the pushes that follow EDSCacheUpdate are fabricated in the shape of its callers (kube controller: ConfigsUpdated {Endpoints "
+        "host/ns}; service event: SvcUpdate + {ServiceEntry host/ns})",
     ]
     ctx.trusted.append("pilot/pkg/model/zz_verif_c13.go + zz_verif_c13_noop.go and the three verifGate(...) lines in endpointshards.go "
                        "(gate points; empty inlinable function without the build tag)")
     ctx.trusted.append("pilot/test/xds FakeDiscoveryServer and the world description in harness/c13/cla.go (services, DestinationRules, "
                        "gateways, proxies) whose derived builder parameters the generator writes into the push lines; the second, "
                        "never started DiscoveryServer whose unexported push channel the harness reads through reflect/unsafe to record "
-                       "what EDSUpdate hands to ConfigUpdate; goroutine identification by runtime.Stack in the gate callback")
+                       "what EDSUpdate hands to ConfigUpdate; goroutine identification by runtime.Stack in the gate callback; "
+                       "pilot/pkg/xds/zz_verif_c03.go (VerifC03PushConnection / VerifC03PushConnectionDelta) and zz_verif_c04.go "
+                       "(VerifNewConnection / VerifNewDeltaConnection): accessors of the unexported per-connection push path; the "
+                       "recording gRPC stream the responses are read from; proxy localities are set on model.Proxy directly")
     proved = ctx.lean_prove(THEOREMS)
     if not ctx.build_drv():
         return
     if not ctx.go_build():
         return
-    ctx.diff_stream("index", ctx.n(1500, 30000), oracle=oracle)
+    ctx.diff_stream("index", ctx.n(1200, 30000), oracle=oracle)
     # real goroutines parked / released at the verif gates in scripted orders vs the lock-region model
-    ctx.diff_stream("sched", ctx.n(1500, 30000), oracle=oracle)
+    ctx.diff_stream("sched", ctx.n(900, 30000), oracle=oracle)
     # index operations + membership queries served by the real EdsGenerator (cache + endpoint builder)
-    ctx.diff_stream("cla", ctx.n(1500, 30000), oracle=oracle)
+    ctx.diff_stream("cla", ctx.n(1200, 30000), oracle=oracle)
     # the oracle also runs on the corpus of every stream (the F4 witnesses live there)
     cdir = os.path.join(os.path.dirname(os.path.dirname(os.path.abspath(__file__))), "harness", "corpus", ctx.pid)
     extra = []
@@ -158,6 +180,13 @@ def run(ctx):
             continue
         verdicts = ctx.read_lines(out)
         ctx.count("oracle.%s.cases" % stream, len(verdicts))
+        # coverage counters of the oracle run (what the generated cases reached on the real code): a decaying
+        # generator shows in the evidence
+        if os.path.exists(out + ".stats"):
+            for l in ctx.read_lines(out + ".stats"):
+                kv = l.split()
+                if len(kv) == 2 and kv[1].isdigit():
+                    ctx.count("cov.%s.%s" % (stream, kv[0]), int(kv[1]))
         for i, v in enumerate(verdicts):
             if v.startswith("FAIL"):
                 clause = v.split()[1]
@@ -203,40 +232,54 @@ MANIFEST = {
                    "pilot/pkg/xds/endpoints/endpoint_builder.go + ep_filters.go. Sequential: every index operation refines the abstract map "
                    "(service, namespace, registry) -> endpoints (index_sequential_spec), so after any history a cell holds the "
                    "registry's latest report and nothing of a deleted service / removed or pruned registry remains "
-                   "(latest_report_kept, removed_stays_removed, no_residue_*); NoPush only if the served membership of the shard is "
-                   "unchanged, service-account change or new service => FullPush (pushType_sound, noPush_served_unchanged, "
-                   "sa_change_forces_full). Concurrent: for the repaired code (fix 16f5918) after every interleaving of the lock regions of "
+                   "(latest_report_kept, removed_stays_removed, no_residue_*); provided the stored shard and the report carry distinct "
+                   "endpoint keys (what registries produce; both corners are witness theorems), NoPush only if the endpoints that may be "
+                   "served are the same multiset up to Equals, service-account change or new service => FullPush (pushType_sound, "
+                   "noPush_served_unchanged, noPush_served_exact, sa_change_forces_full). Concurrent: for the repaired code (fix 16f5918) after every interleaving of the lock regions of "
                    "any number of operations the index is their sequential execution in commit order, a permutation that respects real "
                    "time (index_linearizable, commit_order_respects_real_time, reads_linearizable); for the pinned code the statement is "
                    "refuted by a 2-operation 4-region schedule (lost_update_witness_unfixed, lost_update_no_sequential_order, F4) and "
                    "proved on orphan-free schedules. Membership: the ClusterLoadAssignment is a permutation of the read shards' endpoints "
                    "that satisfy memberSpec - the clause written from the property text (member_eq_spec, membership_exact_spec) - one "
                    "non-empty group per locality, weights = saturating sums (grouped_by_locality, weights_consistent); in multi-network "
-                   "meshes routeSpec - written from the text: same / unknown network or no gateway => own address, remote => never own address, with "
+                   "meshes routeSpec - written from the text: same / unknown network or no gateway => own address (a unix domain socket "
+                   "included; only an endpoint reported without any address is left out), remote => never own address, with "
                    "mTLS and a reachable gateway split among the gateways, else not served - equals the filter's decision (route_satisfies_spec, "
                    "routeSpec_unique, selectGws_spec, reachableGws_spec), the gateway endpoints of a locality carry exactly the saturating sum "
-                   "of the shares of that locality's remote members (gateway_weight_per_locality, no_phantom_gateway), and "
-                   "served_endpoints_exact_net relates what is served there to the latest reports; service_endpoints_exact does so for the "
-                   "CDS-time snapshot (CopyEndpoints / ServiceEndpointsByPort); served_endpoints_exact(_concurrent) composes the parts. The models "
-                   "are tied to /repo on every run by three line-by-line differentials against the real code, the third one through "
-                   "DiscoveryServer.EDSUpdate, the recorded non-forced PushRequest and the real EdsGenerator (partial pushes, XdsCache)."),
+                   "of the shares of that locality's remote members (gateway_weight_per_locality, no_phantom_gateway, served_group_exact_net), and "
+                   "served_endpoints_exact_net relates what is served there to the latest reports; under a DestinationRule "
+                   "localityLbSetting.distribute the first rule naming the proxy's locality keeps exactly the endpoints of the localities its "
+                   "targets name, empties the others, and gives a named locality ceil(weight x percentage / total of its target) "
+                   "(distribute_endpoints, distribute_weight, ceilDiv_spec, applyDistribute_order_independent, served_endpoints_exact_lb); "
+                   "service_endpoints_exact covers the CDS-time snapshot (CopyEndpoints / ServiceEndpointsByPort); "
+                   "served_endpoints_exact(_concurrent) composes the parts. The models are tied to /repo on every run by three line-by-line "
+                   "differentials against the real code, the third one through DiscoveryServer.EDSUpdate / EDSCacheUpdate, the recorded "
+                   "non-forced PushRequest, the real pushConnection / pushConnectionDelta and the real EdsGenerator (partial pushes, XdsCache)."),
     "level_note": ("Trusted: Lean kernel + {propext, Classical.choice, Quot.sound}; the hand-written models, tied by differential testing "
-                   "(quick ~4500 cases / thorough ~90000: sequential op sequences on the real EndpointIndex; real goroutines parked and "
+                   "(quick ~3300 cases / thorough ~90000: sequential op sequences on the real EndpointIndex; real goroutines parked and "
                    "released at three verif gate points in scripted orders, incl. DeleteShard / PruneShard goroutines parked at every "
                    "unlink, with a linearizability verdict computed on the real code; what a proxy holds after partial sotw/delta pushes "
                    "produced by the real EdsGenerator from the PushRequests EDSUpdate really issued, in a single-network and a "
                    "multi-network FakeDiscoveryServer world, with an independent membership / gateway-weight oracle and a "
-                   "served-equals-current check); the gate hook pilot/pkg/model/zz_verif_c13*.go; mutex atomicity. Not modelled: "
-                   "locality-LB priorities / failover / distribute (loadbalancer.ApplyToLoadAssignment), ambient multi-network, waypoint, "
-                   "self-discovery, inference-pool and HBONE-tunnel endpoints, DestinationRule TLS / PeerAuthentication in the mTLS "
-                   "decision, CDS-time FromServiceEndpoints; DeleteShard / PruneShard are single regions in the concurrent model (lock "
-                   "discipline checked on the real code; write regions of earlier-looked-up updates inside their loop are outside the "
-                   "theorem); linearizability is about index state. Of loadbalancer.go ('consistent weights under DestinationRule LB settings') "
-                   "only this is covered: endpoint weight >= 1, locality weight = saturating sum, even split among gateways, priorities observed "
-                   "to stay 0 in the tested configurations; failover / distribute / zone-aware are not. Defects found and fixed in /repo: F4 "
-                   "lost update when a delete unlinks the shard set inside an update's lookup->lock window (16f5918); slices.EqualUnordered "
-                   "compared by containment, so IstioEndpoint.Equals / NoPush missed an address list whose multiplicities changed (8c9910a); "
-                   "locality and gateway weights wrapped around uint32 after the network filter (ace8a3e)."),
+                   "served-equals-current check); the gate hook pilot/pkg/model/zz_verif_c13*.go and the push-path accessors "
+                   "pilot/pkg/xds/zz_verif_c03.go / zz_verif_c04.go; mutex atomicity. Not modelled: "
+                   "locality-LB priorities / failover / failoverPriority / zone-aware / TrafficDistribution (of "
+                   "loadbalancer.ApplyToLoadAssignment only distribute is), ambient multi-network, waypoint, self-discovery, inference-pool "
+                   "and HBONE-tunnel endpoints, AdditionalAddresses beyond Equals, DestinationRule TLS / PeerAuthentication modes other than "
+                   "DISABLE in the mTLS decision, CDS-time FromServiceEndpoints, a PushContext that re-uses the previous ServiceIndex, "
+                   "services / proxies in more than one namespace, non-sidecar proxies in multi-network meshes; DeleteShard / PruneShard are "
+                   "single regions in the concurrent model (lock discipline checked on the real code; write regions of earlier-looked-up "
+                   "updates inside their loop are outside the theorem and outside the sched stream); linearizability is about index state "
+                   "(every sched line reads the whole real index mid-interleaving; no assignment is built there). Of loadbalancer.go "
+                   "('consistent weights under DestinationRule LB settings') this is covered: endpoint weight >= 1, locality weight = saturating "
+                   "sum, even split among gateways, distribute (membership and weights), priorities observed to stay 0 in the tested "
+                   "configurations. Under distribute the unqualified sentence 'the assignment is a permutation of the members' is false on "
+                   "purpose: members in localities the rule does not name are left out (served_endpoints_exact_lb says which). Defects found "
+                   "and fixed in /repo: F4 lost update when a delete unlinks the shard set inside an update's lookup->lock window (16f5918); "
+                   "slices.EqualUnordered compared by containment, so IstioEndpoint.Equals / NoPush missed an address list whose "
+                   "multiplicities changed (8c9910a); locality and gateway weights wrapped around uint32 after the network filter (ace8a3e); "
+                   "unix-domain-socket endpoints dropped from every assignment once the mesh had a network gateway (d58e8bb); distribute "
+                   "weights wrapped around uint32 (09a3da5)."),
     "technique": ("Lean 4 theorems over exact models of the endpoint index (sequential and lock-region concurrent) and of EDS membership "
                   "+ differential correspondence with the real Go code, including scripted goroutine interleavings through gate hooks"),
     "design_ref": "DESIGN.md section 5 C13",
